@@ -327,6 +327,9 @@ pub trait Sut: Send {
     fn save_size(&self) -> Result<u64, String>;
     /// `bincode::deserialize` into the same type
     fn load(&self, bytes: &[u8]) -> Result<Box<dyn Sut>, String>;
+    /// `serde_json::to_string` (a human-readable format; fails on non-finite state, which JSON cannot carry)
+    fn save_json(&self) -> Result<String, String>;
+    fn load_json(&self, text: &str) -> Result<Box<dyn Sut>, String>;
     fn display(&self) -> String;
     fn debug(&self) -> String;
     fn period(&self) -> Option<usize>;
@@ -392,6 +395,12 @@ impl<I: Ind> Sut for W<I> {
     }
     fn load(&self, bytes: &[u8]) -> Result<Box<dyn Sut>, String> {
         bincode::deserialize::<I>(bytes).map(|i| Box::new(W(i)) as Box<dyn Sut>).map_err(|e| e.to_string())
+    }
+    fn save_json(&self) -> Result<String, String> {
+        serde_json::to_string(&self.0).map_err(|e| e.to_string())
+    }
+    fn load_json(&self, text: &str) -> Result<Box<dyn Sut>, String> {
+        serde_json::from_str::<I>(text).map(|i| Box::new(W(i)) as Box<dyn Sut>).map_err(|e| e.to_string())
     }
     fn display(&self) -> String {
         format!("{}", self.0)
